@@ -44,6 +44,7 @@ type Contract struct {
 	Modifies     []*ModClause
 	modSrc       []string
 	HeldAtEntry  []ast.Expr
+	Acquires     []ast.Expr
 	Loops        map[int]*LoopContract
 	Safety       bool
 	Pure         bool
@@ -123,7 +124,7 @@ type RecFunc struct {
 	Body   string // SMT body (raw)
 }
 
-var clauseKW = regexp.MustCompile(`^(requires|ensures|modifies|held|loop|option|props|assert)\b`)
+var clauseKW = regexp.MustCompile(`^(requires|ensures|modifies|held|acquires|loop|option|props|assert)\b`)
 var labelRe = regexp.MustCompile(`^([A-Za-z][A-Za-z0-9_\-]*):\s+(.*)$`)
 
 func parseClause(src string, line int) (*Clause, error) {
@@ -225,7 +226,7 @@ func parseContractFile(path, pkgPath string) (*PkgSpec, error) {
 			ps.PureExt = append(ps.PureExt, strings.TrimSpace(strings.TrimPrefix(t, "pure ")))
 		case strings.HasPrefix(t, "recfunc "):
 			// recfunc name((a (Array Int Real)) (n Int)) Real := <smt body>
-			m := regexp.MustCompile(`^recfunc\s+(\S+)\s*\((.*)\)\s+(\S+|\(.*?\))\s*:=\s*(.*)$`).FindStringSubmatch(t)
+			m := regexp.MustCompile(`^recfunc\s+([A-Za-z_][A-Za-z0-9_]*)\s*\((.*?)\)\s+(\S+)\s*:=\s*(.*)$`).FindStringSubmatch(t)
 			if m == nil {
 				return nil, fail(fmt.Errorf("bad recfunc"))
 			}
@@ -301,6 +302,12 @@ func parseContractFile(path, pkgPath string) (*PkgSpec, error) {
 				return nil, fail(err)
 			}
 			cur.HeldAtEntry = append(cur.HeldAtEntry, e)
+		case strings.HasPrefix(t, "acquires "):
+			e, err := parseSpecExpr(strings.TrimSpace(strings.TrimPrefix(t, "acquires ")))
+			if err != nil {
+				return nil, fail(err)
+			}
+			cur.Acquires = append(cur.Acquires, e)
 		case strings.HasPrefix(t, "props "):
 			cur.Props = strings.Fields(strings.TrimPrefix(t, "props "))
 		case strings.HasPrefix(t, "option "):
